@@ -179,6 +179,21 @@ class _Model:
     pass
 
 
+def _coords_same(np, a1, a0):
+    """Coordinates of an untouched object may be regenerated (e.g. on demand, in the currently
+    configured precision): equal up to the rounding of the coarser of the two dtypes."""
+    a1, a0 = np.asarray(a1), np.asarray(a0)
+    if a1.shape != a0.shape:
+        return False
+    rel = 1e-4 if (a1.dtype == np.float32 or a0.dtype == np.float32) else 1e-9
+    ext = max(float(np.abs(a0).max()) if a0.size else 0.0, 1e-300)
+    d = np.abs(a1.astype(float) - a0.astype(float))
+    if bool(np.all(d <= rel * ext)):
+        return True
+    # angles: compare modulo a full turn
+    return bool(np.all(np.abs(np.angle(np.exp(1j * (a1.astype(float) - a0.astype(float))))) <= rel * 10))
+
+
 def execute(plan):
     core.import_prysm()
     import warnings
@@ -275,10 +290,9 @@ def execute(plan):
                     ifg.filter(0.1, "no-such-filter")
                 else:
                     ifg.pad(samples=1, shape=3)
-                # not raising is fine too (a future version may accept it); then the model follows the object
-                mdl.shape = tuple(ifg.data.shape)
-                mdl.valid = ~np.isnan(ifg.data)
-                mdl.dx = float(ifg.dx)
+                # not raising is fine too (a future version may accept or coerce such input), but what
+                # the object then holds is undefined: the rest of this run is not judged
+                raise _Stop("poison input accepted")
             elif k == "precision":
                 if config.precision != (np.float32 if op["bits"] == 32 else np.float64):
                     bump(faults, "precision_flip")
@@ -404,6 +418,11 @@ def execute(plan):
                 ifg.filter(fc, op["typ"])
             else:
                 raise RuntimeError(f"unknown op {k}")
+        except _Stop as s:
+            ev["out"] = "stop:" + str(s)
+            events.append(ev)
+            bump(probes, "poison_accepted_run_cut_short")
+            break
         except _Skip as s:
             out = "skip"
             skip = True
@@ -493,8 +512,7 @@ def execute(plan):
     if not _nan_eq(np, sib.data, sib_data):
         viol("instance-isolated", -1, "sibling", bits_s, what="data")
     for w, a0 in sib_snap.items():
-        a1 = np.asarray(getattr(sib, w))
-        if a1.shape != a0.shape or not np.array_equal(a1, a0):
+        if not _coords_same(np, getattr(sib, w), a0):
             viol("instance-isolated", -1, "sibling", bits_s, what=w)
     # ... and the sibling must still work like a fresh object: calibration steps regenerate its
     # grids, which must come out right whatever the other instance did to shared state
@@ -516,8 +534,13 @@ def execute(plan):
         if not _nan_eq(np, orig.data, data0):
             viol("copy-isolated", ci, "copy", bits0, what="data")
         for w, a0 in snap.items():
-            a1 = getattr(orig, "_" + w, None)
-            if a0 is not None and (a1 is None or np.shape(a1) != a0.shape or not np.array_equal(np.asarray(a1), a0)):
+            if a0 is None:
+                continue
+            try:
+                a1 = getattr(orig, w)          # through the public property: caches may have been dropped
+            except Exception:
+                a1 = None
+            if a1 is None or not _coords_same(np, a1, a0):
                 viol("copy-isolated", ci, "copy", bits0, what=w)
         bump(probes, "copy_shadow_checked")
     nontrivial = state_changes >= 1 and any(e["op"] == "read" for e in events)
@@ -526,6 +549,10 @@ def execute(plan):
 
 
 class _Skip(Exception):
+    pass
+
+
+class _Stop(Exception):
     pass
 
 
